@@ -190,7 +190,11 @@ def delta_family(ck, rnd, tier, wd, trace, owner, scripts_by):
         cid = "d-f%d" % fi
         sc = delta.Scenario(cid, wd, B, b"", sources=[A], limit=-1, frag=16384, name="copy+download, " + fault_name(f, {0: "target", 1: "source"}))
         sc.write_files()
-        lines = sc.script().splitlines(); idx = lines.index("dl_init 0 0"); lines[idx + 1:idx + 1] = fault_lines(f)
+        lines = sc.script().splitlines()
+        # a rule is bound to the descriptor its slot holds when the rule is read: those on the source go after its open
+        on_src = (f[0][1] if isinstance(f, list) else f[1]) == 1
+        idx = [j for j, l in enumerate(lines) if l.startswith("open 1 ")][0] if on_src else lines.index("dl_init 0 0")
+        lines[idx + 1:idx + 1] = fault_lines(f)
         jobs.append((cid, sc, "\n".join(lines) + "\n", f))
     evs = common.by_case([e for part in common.run_driver_parallel(["".join(j[2] for j in jobs[k::12]) for k in range(12)], "plain", timeout=2400) for e in part])
     for (cid, sc, s, f) in jobs:
